@@ -29,6 +29,8 @@ structure St where
   skAcc : List Sk := []
   -- dump model (`dm …` lines)
   dm : DumpSt := {}
+  -- source shape: are the out/log line vectors re-split when a call stops before do_run / after a failed load
+  refreshed : Bool := false
   dmFile : Bool := false
   dmStr : Bool := false
 
@@ -91,7 +93,9 @@ def feed (s : St) (line : String) : St :=
       addUser { s with pevs := s.pevs.push (.val n ((f / 4) % 2 == 1) name v r) } n
     | _, _, _, _, _ => { s with bad := s.bad + 1 }
   | "cfg" :: "selusers" :: ws => { s with extraUsers := ws.filterMap String.toInt? }
+  | ["cfg", "refreshed", b] => { s with refreshed := b == "1" }
   | ["dm", "reset"] => { s with dm := {} }
+  | ["dm", "unload"] => { s with dm := { s.dm with info := {}, str := [] } }
   | ["dm", "cfg", f, g] => { s with dmFile := f == "1", dmStr := g == "1" }
   | ["dm", "sim", hasDump, app, prDump, tok] =>
     let sim : Option (Option Bool) × List Char :=
@@ -142,11 +146,13 @@ def showSk : Sk → String
   | .head n => s!"h{n}"
 
 /-- history mode: the call is run on the persistent instance state -/
-def reportCall (s : St) : St × List String :=
+def reportCall (s : St) (mode : String := "call") : St × List String :=
   let cfg : PCfg := ⟨if s.perUser then specStrOn (look s.strSw) else codeStrOn (look s.strSw) s.cur, look s.fileSw⟩
   let c : CallCfg := ⟨s.outCfg, s.logCfg, s.errCfg, cfg⟩
   let e : CallEvs := ⟨s.outs.toList, s.logs.toList, s.errs.toList, s.pevs.toList⟩
-  let i := s.inst.call c e
+  let i := if mode == "nodb" then s.inst.callNoDb s.refreshed c e
+           else if mode == "loadfail" then s.inst.loadFail s.refreshed c e
+           else s.inst.call c e
   let users := s.extraUsers.foldl (fun us n => if us.contains n then us else us ++ [n]) s.users
   let v := i.views
   let out :=
@@ -217,6 +223,19 @@ def run : IO Unit := do
       let (s', rs) := reportCall s
       for r in rs do out.putStrLn r
       s := s'
+    else if t == "endcallnodb" then
+      let (s', rs) := reportCall s "nodb"
+      for r in rs do out.putStrLn r
+      s := s'
+    else if t == "endloadfail" then
+      let (s', rs) := reportCall s "loadfail"
+      for r in rs do out.putStrLn r
+      s := s'
+    else if t == "loadok" then
+      -- a successful load: files untouched (file switches are forced off), views are those of the internal test run (not judged)
+      s := { s with inst := { disk := s.inst.disk }, outs := #[], logs := #[], errs := #[], pevs := #[], users := [], bad := 0,
+                    so := {}, skAcc := [], dm := { s.dm with info := {}, str := [] } }
+      out.putStrLn "P bad 0"
     else if t == "reset" then
       s := {}
     else if t == "sk endcall" then
